@@ -284,6 +284,9 @@ func (m *fakeModel) next(ctx context.Context, input []*schema.Message) (*Step, i
 	k := len(rc.calls)
 	rc.calls = append(rc.calls, modelCall{renderAll(input), input})
 	rc.mu.Unlock()
+	if rv, _ := ctx.Value(rvKey{}).(*rendezvous); rv != nil && k == 0 {
+		rv.arriveOnce(rc)
+	}
 	if k >= len(m.c.Script) || m.c.Script[k].Fail {
 		return nil, k
 	}
@@ -691,6 +694,7 @@ type RunObs struct {
 	Emits     []Msg     `json:"emits,omitempty"`          // messages handed out by the future (tool messages of a round in call order)
 	FutEnd    string    `json:"future_end,omitempty"`     // closed | error | hang
 	LateErr   bool      `json:"late_err,omitempty"`       // Stream returned a stream and the error came while it was read
+	Foreign   string    `json:"foreign,omitempty"`        // a concurrent run was handed a message of another run of the same agent
 }
 
 // what is run: the agent itself, or a parent graph holding the exported agent graph as its only node
@@ -761,11 +765,89 @@ func short(s string) string {
 	return s
 }
 
-func runAgent(tg *target, c *Case, mode string) (o RunObs) {
+// rendezvous of the concurrent runs of one agent: every run waits inside its first model call until all of
+// them are there (or 5 s have passed: never an alarm), so that the runs really overlap - each has appended its
+// original messages to its history before any of them appends its first assistant message
+type rendezvous struct {
+	mu      sync.Mutex
+	n, here int
+	all     chan struct{}
+	seen    map[*recorder]bool // the runs that have arrived (each counts once)
+}
+
+func (rv *rendezvous) arriveOnce(rc *recorder) {
+	rv.mu.Lock()
+	if rv.seen[rc] {
+		rv.mu.Unlock()
+		return
+	}
+	rv.seen[rc] = true
+	rv.mu.Unlock()
+	rv.arrive()
+}
+
+type rvKey struct{}
+
+func (rv *rendezvous) arrive() {
+	rv.mu.Lock()
+	rv.here++
+	if rv.here == rv.n {
+		close(rv.all)
+	}
+	rv.mu.Unlock()
+	select {
+	case <-rv.all:
+	case <-time.After(5 * time.Second):
+	}
+}
+
+// the mark a concurrent run puts on the content of its original messages: what a run is handed must never
+// carry the mark of another run
+func runTag(i int) string { return fmt.Sprintf(" [concurrent run %d]", i) }
+
+const runTagPrefix = " [concurrent run "
+
+// removes the run's own mark from the recorded model inputs; reports a message that carries another run's
+func (o *RunObs) stripTag(tag string) {
+	for k := range o.Inputs {
+		for j := range o.Inputs[k] {
+			m := &o.Inputs[k][j]
+			m.Content = strings.ReplaceAll(m.Content, tag, "")
+			if strings.Contains(m.Content, runTagPrefix) && o.Foreign == "" {
+				o.Foreign = fmt.Sprintf("model call %d was handed %q as message %d", k, m.Content, j)
+			}
+		}
+	}
+}
+
+func runAgent(tg *target, c *Case, mode string) (o RunObs) { return runAgentTagged(tg, c, mode, "", nil) }
+
+func runAgentTagged(tg *target, c *Case, mode string, tag string, rv *rendezvous) (o RunObs) {
 	o.Mode, o.Exported = mode, tg.exported
 	rc := &recorder{}
 	ctx := context.WithValue(context.Background(), recKey{}, rc)
+	if rv != nil {
+		ctx = context.WithValue(ctx, rvKey{}, rv)
+		defer func() { // a run that ends without a model call does not keep the others waiting
+			rv.mu.Lock()
+			first := !rv.seen[rc]
+			rv.seen[rc] = true
+			if first {
+				rv.here++
+				if rv.here == rv.n {
+					close(rv.all)
+				}
+			}
+			rv.mu.Unlock()
+		}()
+	}
 	in := inputMsgs(c)
+	for _, m := range in {
+		m.Content += tag
+	}
+	if tag != "" {
+		defer o.stripTag(tag)
+	}
 	// the caller's slice has spare capacity (it was built with append): whoever keeps it and appends to
 	// it writes into the caller's backing array - the elements beyond its length are watched, too
 	spare := &schema.Message{Role: schema.User, Content: "<spare capacity of the caller's slice>"}
@@ -1382,6 +1464,9 @@ func (c *Case) oracle(gen, str *RunObs, conc []RunObs, exp []RunObs) (string, st
 		if conc[i].Mode == "stream" {
 			want = str
 		}
+		if conc[i].Foreign != "" {
+			return fmt.Sprintf("a %s run that overlaps other runs of the same agent sees their messages in its history: %s", conc[i].Mode, conc[i].Foreign), "concurrent-differs:history of another run"
+		}
 		if d := sameRun(&conc[i], want); d != "" {
 			return fmt.Sprintf("a concurrent %s run differs from the sequential one in %s", conc[i].Mode, d), "concurrent-differs:" + d
 		}
@@ -1740,6 +1825,26 @@ func genCase(r *lib.Rng, tier string) *Case {
 	if r.Chance(1, 8) {
 		L = r.Range(7, 8) // long enough to exceed the default limit
 	}
+	// the boundary of the DEFAULT step limit (MaxStep 0 = number of nodes + 10: 12, or 13 with the direct_return node):
+	// six tool rounds and a seventh, plain reply need 13 node executions - the answer with a return-directly set
+	// (whose tools are never called here), the step-limit error without
+	boundary := r.Chance(1, 12)
+	var plainTools []string // tools that are not return-directly
+	for _, t := range c.Tools {
+		isRD := false
+		for _, n := range c.RD {
+			isRD = isRD || n == t.Name
+		}
+		if !isRD {
+			plainTools = append(plainTools, t.Name)
+		}
+	}
+	if len(plainTools) == 0 {
+		boundary = false
+	}
+	if boundary {
+		L = 7
+	}
 	if r.Chance(1, 4) { // the model's own numbering of its tool calls: from 1 or 2, with gaps
 		c.IndexBase, c.IndexStride = r.Range(0, 2), r.Range(1, 2)
 	}
@@ -1755,10 +1860,15 @@ func genCase(r *lib.Rng, tier string) *Case {
 	for k := 0; k < L; k++ {
 		st := Step{Content: r.Pick(textPool)}
 		last := k == L-1
-		if r.Chance(1, 40) {
+		if r.Chance(1, 40) && !boundary {
 			st.Fail = true
 		}
-		if (!last && !r.Chance(1, 15)) || (last && r.Chance(1, 8)) {
+		if boundary && !last {
+			st.Content = ""
+			st.Calls = []TCall{{ID: fmt.Sprintf("k%d_0", k), Name: r.Pick(plainTools), Args: r.Pick(argPool)}}
+		} else if boundary {
+			// the seventh reply: plain
+		} else if (!last && !r.Chance(1, 15)) || (last && r.Chance(1, 8)) {
 			nc := r.Range(1, 4)
 			for i := 0; i < nc; i++ {
 				cl := TCall{ID: fmt.Sprintf("k%d_%d", k, i), Name: c.Tools[r.Intn(nt)].Name, Args: r.Pick(argPool)}
@@ -1797,10 +1907,13 @@ func genCase(r *lib.Rng, tier string) *Case {
 	default:
 		c.MaxStep = r.Range(1, 2*L+2)
 	}
+	if boundary {
+		c.MaxStep = 0
+	}
 	if r.Chance(1, 3) {
 		c.Concurrent = r.Range(2, 4)
 	}
-	if r.Chance(1, 6) {
+	if r.Chance(1, 6) && !boundary {
 		c.RuntimeMax = r.Range(1, 2*L+2) // the call option overrides MaxStep
 	}
 	c.ToolOpt = r.Chance(1, 3)
@@ -1917,6 +2030,7 @@ func (engine) Run(ci any) lib.Result {
 	var conc []RunObs
 	if c.Concurrent > 0 {
 		conc = make([]RunObs, c.Concurrent)
+		rv := &rendezvous{n: c.Concurrent, all: make(chan struct{}), seen: map[*recorder]bool{}}
 		var wg sync.WaitGroup
 		for i := range conc {
 			wg.Add(1)
@@ -1926,7 +2040,7 @@ func (engine) Run(ci any) lib.Result {
 				if i%2 == 1 {
 					mode = "stream"
 				}
-				conc[i] = runAgent(tg, c, mode)
+				conc[i] = runAgentTagged(tg, c, mode, runTag(i), rv)
 			}(i)
 		}
 		wg.Wait()
@@ -2011,6 +2125,24 @@ func (engine) Run(ci any) lib.Result {
 		fmt.Sprintf("call-time-tool-list:%v", len(c.ToolList) > 0)}
 	if c.Exported {
 		res.Tags = append(res.Tags, fmt.Sprintf("exported-parent-stateful:%v", len(c.Script)%2 == 0))
+	}
+	if limit == 0 {
+		// how close the run comes to the default limit (12 node executions, 13 with a return-directly set)
+		big := *c
+		big.MaxStep, big.RuntimeMax = 1000, 0
+		free := big.specRun(-1)
+		need := len(free.Inputs) + len(free.Rounds)
+		if free.Out.Class == "final" && free.Out.Msg.Role == 3 {
+			need++
+		}
+		switch {
+		case need < 12:
+			res.Tags = append(res.Tags, "default-limit:needs<12")
+		case need > 13:
+			res.Tags = append(res.Tags, "default-limit:needs>13")
+		default:
+			res.Tags = append(res.Tags, fmt.Sprintf("default-limit:needs=%d,rd:%v", need, len(c.RD) > 0))
+		}
 	}
 	switch {
 	case c.Mod != "":
